@@ -187,3 +187,23 @@ def materialize(a):
         n = ata_expected_len(a)
         a["data"] = bytearray(n) if n else None
     return a
+
+
+def minimal(cmd):
+    """cheapest valid argument dict for `cmd` (used to instantiate a class once)."""
+    a = {}
+    for p in list(cmd.pos) + [f for f in cmd.fpos if f not in cmd.pos]:
+        if p in cmd.defaults:
+            a[p] = cmd.defaults[p]
+        else:
+            a[p] = 0
+    if "blocksize" in a:
+        a["blocksize"] = 1
+    if "data" in cmd.pos:
+        if cmd.name.startswith("modeselect"):
+            a["data"] = dict(MODE_PAGE_MIN, mode_pages=[dict(MODE_PAGE_MIN["mode_pages"][0])])
+        elif cmd.name.startswith("writesame"):
+            a["data"] = bytes(1)
+        else:
+            a["data"] = bytes(0)
+    return a
